@@ -195,7 +195,8 @@ impl RustCodeGenerator {
                         EncodingOrdering::Sort => "set",
                     },
                     *tag,
-                    extension_after.map(|index| fields[index].name().to_string()),
+                    // the attribute has to name the field as it is printed (keywords are escaped)
+                    extension_after.map(|index| Self::rust_field_name(fields[index].name(), true)),
                     &[],
                 ));
                 Self::add_struct(
